@@ -215,6 +215,9 @@ func c17() []*Ob {
 					c.Undecided("alias:SetMultiple:params", fn.Pos(), "SetMultiple has no slice parameters any more")
 				}
 			}},
+		{Prop: "C17", ID: "C17.6", Engine: "PAIR(key)", Floor: 1,
+			Desc:  "a re-delivered document that landed on another store is still one document: the repetition test of the result merge compares the document id only, never the source (shared rule with C05.6)",
+			Check: func(c *Ctx) { repetitionKeyIsID(c) }},
 		{Prop: "C17", ID: "C17.3", Engine: "LOCK+DOM", Floor: 1,
 			Desc: "first writer wins, atomically: DocsPositions.SetMultiple looks an id up and stores it under one write-lock hold, stores only when the id is new or has the same position, and appends to the result exactly the ids it stored",
 			Check: func(c *Ctx) {
